@@ -120,6 +120,8 @@ impl Env {
 }
 
 fn main() {
+    // the cases run in a supervised child process: a death of the whole process is a finding too
+    let sup = vcommon::result::supervise("C13");
     world::install_panic_recorder();
     let thorough = is_thorough();
     let mut res = EngineResult::new("C13");
@@ -313,7 +315,11 @@ fn main() {
     let mut nontrivial: BTreeSet<String> = BTreeSet::new();
     let mut panics_total = 0u64;
     let root_rec = AuditRec::to(WS, 0, root_pid, true);
-    for (desc, case) in &cases {
+    for (idx, (desc, case)) in cases.iter().enumerate() {
+        if sup.done_before(idx) {
+            continue;
+        }
+        sup.begin(idx, desc);
         evals += 1;
         nontrivial.insert(desc["kind"].to_string() + &desc.to_string().len().to_string() + &desc.to_string());
         let mut got_response: Option<Result<u16, String>> = None;
@@ -428,12 +434,17 @@ fn main() {
         if evals <= 2 || (evals % 97 == 0 && res.samples.len() < 6) {
             res.sample(json!({"case": desc, "response": format!("{:?}", got_response)}));
         }
+        // flushed after every case: what was found so far survives a death of this process
+        res.cov("evaluations", evals);
+        res.cov("distinct_nontrivial", nontrivial.len() as u64);
+        res.cov("panics_recorded", panics_total);
+        res.finish();
     }
     res.cov("evaluations", evals);
     res.cov("distinct_nontrivial", nontrivial.len() as u64);
     res.cov("panics_recorded", panics_total);
     res.cov("exhaustive", true);
-    res.cov("rule", "caller command lines/exe names made of 2-, 3- and 4-byte UTF-8 characters behind 0..w-1 ASCII bytes (every alignment against the byte-offset cuts at 512/1024/4096) x allowed/denied; requests with each header-value byte (0x09, 0x7f, 0x80..0xff; quick: 6 representatives) single and repeated, URLs/queries of 1000..65000 bytes, 90 repeated headers, a 30000-byte header value; host replies to the key keeper's status poll over 9 content types x bodies (empty, 1-3 bytes, valid, multi-byte bodies at every alignment) x content-length / chunked with a 1- or 3-byte first chunk (odd UTF-16 frames) / a declared Content-Length of 2^63 or 2^40 with the connection closed; 16 rule documents with dangling, duplicate, missing and empty names in force while matching requests arrive; wake-up notifications to the key keeper at every 0.125 ms offset across its poll interval; after every case: no panic anywhere in the process, the request got an HTTP response, and listener, /provision, key keeper and status task are still live".to_string());
+    res.cov("rule", "caller command lines/exe names made of 2-, 3- and 4-byte UTF-8 characters behind 0..w-1 ASCII bytes (every alignment against the byte-offset cuts at 512/1024/4096) x allowed/denied; requests with each header-value byte (0x09, 0x7f, 0x80..0xff; quick: 6 representatives) single and repeated, URLs/queries of 1000..65000 bytes, 90 repeated headers, a 30000-byte header value; host replies to the key keeper's status poll over 9 content types x bodies (empty, 1-3 bytes, valid, multi-byte bodies at every alignment) x content-length / chunked with a 1- or 3-byte first chunk (odd UTF-16 frames) / a declared Content-Length of 2^63 or 2^40 with the connection closed; 16 rule documents with dangling, duplicate, missing and empty names in force while matching requests arrive; wake-up notifications to the key keeper at every 0.125 ms offset across its poll interval; the cases run in a supervised child process, so a death of the whole process (abort, allocation failure) is attributed to the case in progress; after every case: no panic anywhere in the process, the request got an HTTP response, and listener, /provision, key keeper and status task are still live".to_string());
     res.assume("a panic is attributed to the case during or directly after which it is recorded");
     std::process::exit(res.finish());
 }
